@@ -93,6 +93,12 @@ def run_gev(key):
         # column-major trailing (D, D) blocks, writeable: an in-place LAPACK call would clobber them
         Pxx = np.ascontiguousarray(Pxx.swapaxes(-1, -2)).swapaxes(-1, -2)
         Pnn = np.ascontiguousarray(Pnn.swapaxes(-1, -2)).swapaxes(-1, -2)
+    elif layout == 'lead_transposed' and len(lead) >= 2:
+        # leading axes swapped in memory (e.g. the (K, F, D, D) view of an (F, K, D, D) result)
+        Pxx = np.swapaxes(np.ascontiguousarray(np.swapaxes(Pxx, 0, 1)), 0, 1)
+        Pnn = np.swapaxes(np.ascontiguousarray(np.swapaxes(Pnn, 0, 1)), 0, 1)
+        Pxx.setflags(write=False)
+        Pnn.setflags(write=False)
     else:
         Pxx.setflags(write=False)
         Pnn.setflags(write=False)
@@ -128,6 +134,17 @@ def run_gev(key):
                     probes_by_name[name + suffix] = v2 if lead else v2[0]
             except Exception as e:  # noqa
                 return viol(f'get_bf_vector({name!r}) raised {e!r}')
+    # the wrapper's 'gev' / 'gev+ban' with the same use_eig option are the primitives composed
+    try:
+        wg = np.asarray(bw.get_bf_vector('gev', Pxx, Pnn, use_eig=use_eig))
+        wgb = np.asarray(bw.get_bf_vector('gev+ban', Pxx, Pnn, use_eig=use_eig))
+        comp = np.asarray(bf.blind_analytic_normalization(w, Pnn))
+    except Exception as e:  # noqa
+        return viol(f"get_bf_vector('gev(+ban)', use_eig={use_eig}) raised {e!r}")
+    bad = tol.mismatch(wg, w, 1e-12, what=f"get_bf_vector('gev', use_eig={use_eig}) vs get_gev_vector") or \
+        tol.mismatch(wgb, comp, 1e-9, what=f"get_bf_vector('gev+ban', use_eig={use_eig}) vs BAN(get_gev_vector)")
+    if bad:
+        return viol(bad)
     n = 0
     for idx in np.ndindex(*lead):
         lam, vecs, allw = gev_lambda_max(Pxx[idx], Pnn[idx])
@@ -248,7 +265,7 @@ def subchecks(tier, seed):
                     for tk in ('rank1', 'rank2', 'full', 'real_full', 'diag_up', 'axis_rank1'):
                         for nk in ('identity', 'cond1e3', 'cond1e6'):
                             for use_eig in (False, True):
-                                for layout in ('c_readonly', 'fortran'):
+                                for layout in ('c_readonly', 'fortran') + (('lead_transposed',) if len(lead) >= 2 else ()):
                                     yield (D, lead, tk, nk, use_eig, layout, seed)
     subs.append(Sub('gev_ban_rank1', ('D', 'lead', 'target', 'noise', 'use_eig', 'layout', 'seed'),
                     gev_cases, run_gev))
